@@ -688,3 +688,9 @@ def check_C03(tier, seed):
 
 def check_C04(tier, seed):
     return run_wire_check("C04", tier, seed)
+
+
+def replay(prop, data):
+    # the recorded observation is compared with the current one (the reference evaluation needs the generator's
+    # structured case, which the replay file does not carry)
+    return common.replay_case(prop, data, "wire")
